@@ -920,6 +920,10 @@ class ComposerBinary(ComposerBase):
         return mpint_bytes
 
     def compose_mpint(self, value, length):
+        bit_length = (~value).bit_length() + 1 if value < 0 else value.bit_length()
+        if bit_length > 8 * length:
+            raise InvalidValue(length, type(self), 'mpint_length')
+
         mpint_bytes = self._compose_mpint(value, length, self.byte_order)
         if length < len(mpint_bytes):
             raise InvalidValue(length, type(self), 'mpint_length')
